@@ -378,6 +378,13 @@ func (u *Unit) evalIdent(env *SpecEnv, name string) SV {
 			if c, ok := obj.(*types.Const); ok {
 				return u.constSV(c)
 			}
+			if gv, ok := obj.(*types.Var); ok && !gv.IsField() {
+				// package-level variable: its current value (heap G!<pkg.name>)
+				if g, ok := u.pkg.Members[name].(*ssa.Global); ok {
+					p := &Ptr{kind: pGlobal, global: g.String(), rtyp: gv.Type(), typ: gv.Type()}
+					return SV{V: u.loadView(env.st, env.hv, env.cells, p), Typ: gv.Type()}
+				}
+			}
 		}
 	}
 	// a local of the function that is not in scope on this path: unconstrained
